@@ -149,6 +149,20 @@ def run_small(res, work, tier, seed):
             inp = [b for p in pieces for b in p]
             add("dec", l1, l2, inp, _ops_for(rng, [len(p) for p in pieces]))
             n_det += 1
+    # the composed design model: the transcribed encoder running on the transcribed OwningIovec (header placeholders,
+    # stable prefix, drains at any moment): prefix / one-hole / lag invariants for all inputs, segmentations, drain schedules
+    for (l1, l2) in ([(2, 3)] if tier == "quick" else [(2, 3), (3, 5)]):
+        ml = 6 if tier == "quick" else 8
+        consts = ("L1 = %d\n  L2 = %d\n  R = 253\n  Alphabet = {254, 253, 7}\n  MaxLen = %d\n  MaxPiece = %d\n  SmallCopy = 1\n"
+                  "  OppCopy = 2\n  Sizes <- CS_tiny\n" % (l1, l2, ml, ml))
+        cfg = _cfg(os.path.join(work, "HcobsOnIovec_%d_%d.cfg" % (l1, l2)),
+                   "SPECIFICATION Spec\nCONSTANTS\n  %sINVARIANTS NoAssert Prefix OneHole Lag DoneComplete\nCHECK_DEADLOCK FALSE\n" % consts)
+        r = tlc.run_tlc("HcobsOnIovecMC", cfg, os.path.join(work, "mc"), workers=8, timeout=3000)
+        if r["violated"]:
+            raise core.ToolError("design check HcobsOnIovec violated %s (specification error):\n%s" % (r["violated"], r["out"][-3000:]))
+        res.add_mc("HcobsOnIovec (L1,L2)=(%d,%d): transcribed encoder on the transcribed OwningIovec; drained++consumable is a "
+                   "prefix of RefEncode, exactly one header placeholder pending, lag <= chunk + L2 + 2, for all inputs <= %d, "
+                   "segmentations, copy/borrow and drain schedules" % (l1, l2, ml), r, consts.replace("\n", ";"))
     # seeded random tiny-limit round trips and corrupted encodings
     n_rand = 1500 if tier == "quick" else 20000
     for _ in range(n_rand):
